@@ -79,6 +79,7 @@ def o_chunked(inp):
         tb = bars_of(tracks)
     except Exception:
         return [("~skip:split-bars-raises", "")]
+    P.warm_up(inp.get("before"))
     nb = len(tb[0])
     cuts = sorted({c for c in cuts if 0 < c < nb})
     bounds = [0] + cuts + [nb]
@@ -109,6 +110,7 @@ def o_chunked(inp):
 
 def setup(ctx):
     ctx.oracle("chunked", o_chunked)
+    ctx.history_oracles = {"chunked"}
 
     def kf_d19(f):
         return f["clause"] in ("notes", "bar-grid") and stalled_chunk([[tuple(m) for m in t] for t in f["input"]["tracks"]], f["input"]["cuts"])
@@ -123,10 +125,11 @@ D19_EXAMPLE = {"cfg": dict(num_tracks=1), "cuts": [1], "tracks": [[
 def generate(ctx):
     rng = ctx.rng
     ctx.check("chunked", D19_EXAMPLE)
+    prev = None
     for i in range(ctx.n(60, 1200)):
         piece = G.gen_piece(rng, n_bars=rng.randint(2, 6), tail_ok=False, pitch_range=(55, 70), within_bar=rng.random() < 0.9,
                              max_notes_per_bar=4)
-        kw = dict(num_tracks=len(piece["tracks"]), velocity_bins=rng.choice([1, 2, 4]), running=rng.random() < 0.6,
+        kw = dict(num_tracks=len(piece["tracks"]), velocity_bins=rng.choice([1, 2, 4, 8, 8, 12, 16]), running=rng.random() < 0.7,
                   fuse_track=rng.random() < 0.5, fuse_value=rng.random() < 0.5, fuse_velocity=rng.random() < 0.5,
                   pitch_range=(55, 70))
         cfg = P.TkCfg(**kw)
@@ -139,6 +142,7 @@ def generate(ctx):
         for cuts in parts:
             ctx.case((piece["tracks"], sorted(kw.items()), cuts), len(cuts) >= 1 and nn >= 2)
             ctx.check("chunked", {"cfg": kw, "tracks": piece["tracks"], "cuts": cuts})
+        prev = {"cfg": kw, "tracks": piece["tracks"]}
         ctx.count("bars:%d" % nb)
         # correspondence: every call of the finest partition, with the state Python carried into it
         try:
